@@ -208,7 +208,7 @@ func runC05(t *Toks) string {
 			}
 			parts := strings.SplitN(diag, ":", 3)
 			if len(parts) < 3 || parts[0] != f[1] {
-				return "SPECFAIL frame carries a foreign payload: msgid " + f[1] + " diag " + diag[:min(len(diag), 20)]
+				return "SPECFAIL frame carries a foreign payload: msgid " + f[1] + " diag(hex) " + hx([]byte(diag[:min(len(diag), 20)]))
 			}
 			key := parts[0] + ":" + parts[1]
 			idx, _ := strconv.Atoi(parts[1])
